@@ -118,6 +118,9 @@ enum What {
 	Unknown,
 	/// no id: never answered, contributes nothing to a batch reply
 	Notif,
+	/// batch entry that is no request: the number `1` (answered -32600 with id null) or an object with nothing but an id
+	/// (answered -32600 with that id). Only used inside batches.
+	Invalid { with_id: bool },
 }
 
 #[derive(Clone, Debug, PartialEq, Eq, Hash, Serialize, Deserialize)]
@@ -170,6 +173,8 @@ fn request_text(c: &Call) -> String {
 		),
 		What::Unknown => format!("{{\"jsonrpc\":\"2.0\",\"id\":{},\"method\":\"no_such_method\",\"params\":[1{pad}]}}", c.id_wire),
 		What::Notif => format!("{{\"jsonrpc\":\"2.0\",\"method\":\"gen{fl}\",\"params\":[0,0,1,1{pad}]}}"),
+		What::Invalid { with_id: true } => format!("{{\"jsonrpc\":\"2.0\",\"id\":{}}}", c.id_wire),
+		What::Invalid { with_id: false } => "1".to_string(),
 	}
 }
 
@@ -190,6 +195,10 @@ fn expected_single(c: &Call) -> Option<String> {
 			Some(format!("{{\"jsonrpc\":\"2.0\",\"id\":{},\"error\":{{\"code\":-32601,\"message\":\"Method not found\"}}}}", c.id))
 		}
 		What::Notif => None,
+		What::Invalid { with_id } => Some(format!(
+			"{{\"jsonrpc\":\"2.0\",\"id\":{},\"error\":{{\"code\":-32600,\"message\":\"Invalid request\"}}}}",
+			if *with_id { c.id.as_str() } else { "null" }
+		)),
 	}
 }
 
@@ -216,6 +225,7 @@ fn what_name(w: &What) -> &'static str {
 		What::Err { .. } => "error",
 		What::Unknown => "unknown-method",
 		What::Notif => "notification",
+		What::Invalid { .. } => "invalid-entry",
 	}
 }
 
@@ -649,6 +659,41 @@ fn plan_batch(r: &mut Rng, limit: u32, max_entries: usize) -> Vec<Call> {
 	entries
 }
 
+/// A batch whose reply first crosses the limit at an invalid entry, followed only by invalid entries or notifications
+/// (0..2 small valid calls in front).
+fn plan_batch_invalid_tail(r: &mut Rng, limit: u32) -> Vec<Call> {
+	let l = limit as usize;
+	let mut entries: Vec<Call> = Vec::new();
+	let mut sum = 1usize;
+	for _ in 0..r.usize(3) {
+		let id = gen_id(r, true);
+		let (flavor, want) = (r.below(3) as u8, 36 + r.usize(30));
+		let c = tune_call(r, id, flavor, false, want, 0);
+		let t = expected_single(&c).unwrap().len();
+		if sum + t + 1 > l {
+			break;
+		}
+		sum += t + 1;
+		entries.push(c);
+	}
+	let mut crossed = 0;
+	while crossed < 1 + r.usize(3) && entries.len() < 400 {
+		let with_id = r.chance(1, 3);
+		let id = gen_id(r, true);
+		let c = Call { id: id.0, id_wire: id.1, flavor: 0, what: What::Invalid { with_id }, pad: 0 };
+		sum += expected_single(&c).unwrap().len() + 1;
+		if sum > l {
+			crossed += 1;
+		}
+		entries.push(c);
+		if r.chance(1, 8) {
+			let id = gen_id(r, true);
+			entries.push(Call { id: id.0, id_wire: id.1, flavor: r.below(3) as u8, what: What::Notif, pad: 0 });
+		}
+	}
+	entries
+}
+
 fn plan_subscribe(r: &mut Rng, limit: u32) -> Case {
 	let id = gen_id(r, true).0;
 	let mode = r.below(2) as u8;
@@ -773,6 +818,9 @@ struct Env {
 	base: MemServer,
 	base_log: HLog,
 	ws: RawWs,
+	/// the same configuration and module behind the low-level assembly (`ws::connect`)
+	low: jrv::lowlevel::LowLevel,
+	low_ws: RawWs,
 	sub_len: Arc<AtomicUsize>,
 	/// requests longer than this are not sent (they would be refused for their own size: C07's subject)
 	max_request: usize,
@@ -789,12 +837,15 @@ impl Env {
 			b = b.max_request_body_size(SMALL_REQUEST_LIMIT);
 		}
 		let log = HLog::default();
-		let srv = MemServer::new(b.build(), module(log.clone()));
+		let cfg = b.build();
+		let low = jrv::lowlevel::LowLevel::new(cfg.clone(), module(log.clone()));
+		let low_ws = low.ws().await.expect("ws::connect");
+		let srv = MemServer::new(cfg, module(log.clone()));
 		let base_log = HLog::default();
 		let base =
 			MemServer::new(ServerConfig::builder().max_connections(1000).max_response_body_size(u32::MAX).build(), module(base_log.clone()));
 		let ws = srv.ws().await.expect("ws connect");
-		Env { srv, log, base, base_log, ws, sub_len, max_request: if small_req_limit { SMALL_REQUEST_LIMIT as usize - 64 } else { 1 << 20 }, probe_no: 0, chunk }
+		Env { srv, log, base, base_log, ws, low, low_ws, sub_len, max_request: if small_req_limit { SMALL_REQUEST_LIMIT as usize - 64 } else { 1 << 20 }, probe_no: 0, chunk }
 	}
 
 	async fn http(&self, body: &str) -> (Vec<Vec<u8>>, usize, u16) {
@@ -815,6 +866,29 @@ impl Env {
 
 	/// probe + sentinel + drain until idle: returns (non-sentinel frames, handler invocations, liveness violation text)
 	async fn ws(&mut self, text: &str) -> (Vec<Vec<u8>>, usize, Option<String>) {
+		self.ws_via(text, false).await
+	}
+
+	/// the same probe on the connection served by the low-level `ws::connect`
+	async fn ws_low(&mut self, text: &str) -> (Vec<Vec<u8>>, usize, Option<String>) {
+		self.ws_via(text, true).await
+	}
+
+	async fn ws_via(&mut self, text: &str, low: bool) -> (Vec<Vec<u8>>, usize, Option<String>) {
+		if low {
+			if self.low_ws.is_ended() {
+				self.low_ws = self.low.ws().await.expect("ws::connect reconnect");
+			}
+			std::mem::swap(&mut self.ws, &mut self.low_ws);
+		}
+		let r = self.ws_inner(text).await;
+		if low {
+			std::mem::swap(&mut self.ws, &mut self.low_ws);
+		}
+		r
+	}
+
+	async fn ws_inner(&mut self, text: &str) -> (Vec<Vec<u8>>, usize, Option<String>) {
 		if self.ws.is_ended() {
 			self.ws = self.srv.ws().await.expect("ws reconnect");
 		}
@@ -883,6 +957,15 @@ async fn run_case(env: &mut Env, case: &Case, ev: &mut Evidence, violations: &mu
 				None => judge_single(call, limit, &w, Some(winv), "ws", case),
 			};
 			let ws_judged = jw.accepted_text.is_some() || !jw.violations.is_empty() || matches!(call.what, What::Notif);
+			// low-level assembly: same limits, same oracle
+			let (lw, _linv, ldead) = env.ws_low(&text).await;
+			if ldead.is_none() {
+				let jl = judge_single(call, limit, &lw, None, "ws-connect", case);
+				ev.count("ws_connect_probes", 1);
+				violations.extend(jl.violations);
+			} else {
+				ev.count("ws_connect_probes_unjudged_dead_connection", 1);
+			}
 			let (b, binv) = env.http_base(&text).await;
 			// baseline: the unlimited server sends exactly the model text and runs the handler equally often
 			if let Some(e) = &exp {
@@ -937,6 +1020,12 @@ async fn run_case(env: &mut Env, case: &Case, ev: &mut Evidence, violations: &mu
 				if matches!(c.what, What::Notif) {
 					continue;
 				}
+				if matches!(c.what, What::Invalid { .. }) {
+					// not a message of its own (alone it would be a different kind of input): its reply inside the array is the
+					// constant -32600 object
+					texts.push(expected_single(c).unwrap());
+					continue;
+				}
 				let sub_case = Case::Single { limit, call: c.clone() };
 				let (h, hinv, _) = env.http(&request_text(c)).await;
 				let j = judge_single(c, limit, &h, Some(hinv), "http", &sub_case);
@@ -972,6 +1061,12 @@ async fn run_case(env: &mut Env, case: &Case, ev: &mut Evidence, violations: &mu
 				}
 				None => judge_batch(limit, &texts, any_replaced, &w, Some((winv, n_calls)), "ws", case),
 			};
+			let (lw, _linv, ldead) = env.ws_low(&body).await;
+			if ldead.is_none() {
+				let (vl, _) = judge_batch(limit, &texts, any_replaced, &lw, None, "ws-connect", case);
+				ev.count("ws_connect_probes", 1);
+				violations.extend(vl);
+			}
 			let (_b, binv) = env.http_base(&body).await;
 			if binv != n_calls {
 				violations.push(Violation::new(
@@ -1096,6 +1191,8 @@ fn gen_cases(seed: u64, limit: u32, n: usize) -> Vec<Case> {
 	(0..n)
 		.map(|_| match r.below(100) {
 			x if x < singles => Case::Single { limit, call: plan_single(&mut r, limit) },
+			x if x < 90 => Case::Batch { limit, entries: plan_batch(&mut r, limit, 6) },
+			x if x < 96 && (100..=20_000).contains(&limit) => Case::Batch { limit, entries: plan_batch_invalid_tail(&mut r, limit) },
 			x if x < 96 => Case::Batch { limit, entries: plan_batch(&mut r, limit, 6) },
 			_ => plan_subscribe(&mut r, limit),
 		})
